@@ -109,7 +109,7 @@ def _format_keys(
                     ]
 
                 del data[KeyClass.PRIVATE][label_and_id]
-            del data[KeyClass.PUBLIC][label_and_id]
+                del data[KeyClass.PUBLIC][label_and_id]
     if pairs:
         res += ["    Signing key pairs:"] + pairs
 
